@@ -46,7 +46,8 @@ def allof_depth(doc):
         b = tt.get(n)
         if not b or n in seen:
             return 0
-        return max([1 + dep(x, seen + (n,)) for x in b["allOf"]] + [0])
+        nested = [p["vn"] for p in b["props"] if p["vk"] == "nobj"]     # a nested object's own allOf is an edge too
+        return max([1 + dep(x, seen + (n,)) for x in list(b["allOf"]) + nested] + [0])
     return max([dep(n) for n in tt] + [0])
 
 
@@ -83,7 +84,7 @@ def main(tier):
     rnd = random.Random(seed())
     docs = rel.valid_docs(chk, tier, [(600, 4), (400, 6)], [(5000, 3), (5000, 5), (3000, 7)])
     # type graphs with allOf chains and references (denser than in whole-API documents)
-    docs += rel.valid_docs(chk, tier, [(1500, 5)], [(20000, 5), (10000, 6)], features='{"type","enum","allof"}')
+    docs += rel.valid_docs(chk, tier, [(1500, 5)], [(20000, 5), (10000, 6)], features='{"type","enum","allof","nested"}')
     cases, meta = [], {}
     for n, m in enumerate(docs):
         d = m["doc"]
